@@ -58,6 +58,18 @@ claim("C14",
       "interleaving at channel/sync.Map/store-lock granularity within a preemption bound and asserts that every group ends with the version submitted last.",
       "Bounds: 2 updates x 2 workers, preemption bound 1 (quick); 3 updates, 2-3 workers, preemption bound 2 (thorough). Counterexample schedules are confirmed natively by a "
       "linearised twin (routeAlert calls executed sequentially in the engine's commit order). Preemption between non-synchronising instructions is outside. " + TRUSTED, "4 C14")
+claim("C15",
+      "ContainsTime is compared with the documented meaning for every accepted interval specification (up to 1-2 ranges per field, each field possibly absent, symbolic bounds) and for every "
+      "minute of the years 1970..2099: the instant is an abstract Gregorian date-time whose components are symbolic and tied together exactly (month lengths, leap years, weekday, Unix seconds). "
+      "The mute/active stages are run with the real Intervener at an arbitrary tick.",
+      "Bounds: 1 range per field (quick) / 2 (thorough), years 1970..2099 (the century leap exceptions are outside), UTC. Go's calendar arithmetic and zone database (t.In, DST) are trusted; "
+      "the engine's calendar model is cross-checked natively on every sampled path. The HH:MM and name parsers and YAML are outside. " + TRUSTED, "4 C15")
+claim("C16",
+      "The UTF-8 matcher lexer/parser is executed on an arbitrary buffer of up to 4 (quick) / 6 (thorough) symbolic bytes: no panic, termination within the unwinding bound; printing a matcher "
+      "with any operator and an arbitrary valid UTF-8 value of up to 4/6 bytes and parsing it back is the identity (also in a list); match semantics for all operators with symbolic label values, "
+      "missing/empty labels, conjunction/disjunction and regex anchoring; the fallback decision table on inputs covering every verdict combination of the two real parsers.",
+      "Bit-vector arithmetic. The regexp engine is not interpreted (regular expressions come from pools; the classic parser, itself a regexp, only runs on concrete inputs); names with reserved "
+      "characters (strconv.Quote) and inputs longer than the bound are outside. " + TRUSTED, "4 C16")
 claim("C18",
       "Histories of submissions, heartbeats, expiry and GC under a per-alert-name limit 1..3 on the real store+limit.Bucket code with symbolic end times (limit invariant, "
       "re-sends accepted, refusals reported, GC only removes resolved); silence count/size limits through the real Set (create, in-place edit, replacing edit) incl. 'rejected leaves state untouched'.",
@@ -68,6 +80,13 @@ claim("C19",
       "duplicates and undecodable bytes; LocalState completeness; send-side routing of Channel.Broadcast (small vs oversized, every peer, failing peer) with the real sender goroutines.",
       "Only 'given that memberlist hands the bytes to the delegate / asks it for state, nothing is lost or blocked on our side' is claimed: memberlist itself (UDP gossip, TCP push/pull, "
       "liveness) cannot be encoded. Encoded sizes are a stand-in (payload length), so only sizes far from the threshold are used. " + TRUSTED, "4 C19")
+
+claim("C20",
+      "The real RetryStage against a scripted integration for every per-attempt outcome sequence (success / recoverable / unrecoverable / hang) of up to 3-4 attempts and every deadline position; "
+      "the receiver's real stage (ClusterWait->Dedup->Retry->SetNotifies per integration under Fanout, real goroutines explored) for record-after-success and sibling isolation; Retrier.Check for every status "
+      "code; webhook max_alerts; the template data laws (exact batch, status, common labels/annotations as intersections).",
+      "Bounds: 4 attempts, 2 integrations, 3 alerts. The back-off ticker is a stub that ticks whenever the scheduler picks it (back-off durations outside); HTTP, template execution, the concrete notifiers "
+      "and text truncation of symbolic strings are outside. " + TRUSTED, "4 C20")
 
 ALL = ["C%02d" % i for i in range(1, 21)]
 for p in ALL:
